@@ -289,6 +289,7 @@ def scope_arg_class(F, f, d, op):
 def run(F, res, tier):
     visitor_completeness(F, res, "traverse_expr", "Expr")
     visitor_completeness(F, res, "add_bindings", "Pattern")
+    every_visited_expression_has_its_scope_recorded(F, res)
     # ---- S2
     te = F.fn(SC + "traverse_expr")
     fs = [F.fns[p] for p in F.with_closures(te.path)]
@@ -1182,3 +1183,31 @@ def name_tables_have_one_duplicate_policy(F, res, rule="S18"):
     res.ob(rule, "module-scope/last-declaration-wins", "every write to the name tables of a module scope overwrites (insert): a name declared twice stands "
            "for its last declaration in the module itself and for every importer", n >= 6 and not bad, where=f.loc(),
            how="writes to values/types/modules: %d; not an overwriting insert: %s" % (n, bad))
+
+
+def every_visited_expression_has_its_scope_recorded(F, res, rule="S22"):
+    """S22: whoever asks for the scope of an expression gets the scope that expression was visited in. The scope walk records
+    `scope_by_expr[expr] = scope` for the expression it is called with - every expression, on every path, before it looks at what
+    kind of expression it is. Resolution walks up to the nearest recorded ancestor, but completion asks for exactly the
+    expression under the cursor: an expression kind left out of the table (a constructor name being typed, a literal, a hole)
+    resolves in no scope and every local disappears from the offer."""
+    fn = F.fns.get(SC + "traverse_expr")
+    if fn is None:
+        res.anchor_missing(rule, SC + "traverse_expr")
+        return
+    d = FL.Defs(fn)
+    ok, seen = [], []
+    for b, t in fn.calls():
+        if FL.short(callee(t) or callee_def(t) or "") != "ArenaMap::insert":
+            continue
+        o = d.origin_op(t["args"][0])
+        names = [e.get("n") for e in (o.get("proj") or []) if isinstance(e, dict) and "f" in e] if o.get("k") == "field" else []
+        if "scope_by_expr" not in names:
+            continue
+        ko, vo = d.origin_op(t["args"][1]), d.origin_op(t["args"][2])
+        seen.append(t["ln"])
+        if ko.get("k") == "arg" and vo.get("k") == "arg" and all(fn.dominates(b, r) for r in fn.return_blocks()) and not FL.gates(F, fn, [b], d):
+            ok.append(t["ln"])
+    res.ob(rule, "scope-walk/records-every-expression", "ExprScopes::traverse_expr records the scope of the expression it was called with unconditionally "
+           "(key and scope are its own parameters; the insert lies on every path and behind no test)", bool(ok), where=fn.loc(),
+           how="unconditional insert at line %s" % ok if ok else "inserts into scope_by_expr at lines %s, none unconditional" % seen)
